@@ -10,6 +10,7 @@ so the structure is enumerated by the real decoder, not by this file.
 """
 from __future__ import annotations
 
+import os
 import time
 import traceback
 
@@ -305,20 +306,28 @@ _SIMP_VARIANTS = (
 )
 
 
-def solve(constraints, extra, timeout_ms=30000):
+def solve(constraints, extra, timeout_ms=30000, fast=False):
     """Decide constraints ∧ extra with a small portfolio of z3 pre-simplifications
     (select-over-store expanded into read-over-write ITE chains; extract
     propagation).  Each variant is an equivalent formula; the first definite
     answer wins; all-unknown is reported as unknown (inconclusive)."""
     t0 = time.time()
     g = z3.And(*constraints, *extra)
+    if fast:
+        # array-free arithmetic obligations: the plain solver usually answers in milliseconds
+        s = z3.Solver()
+        s.set("timeout", min(1500, timeout_ms))
+        s.add(g)
+        r = s.check()
+        if r != z3.unknown:
+            return str(r), (s.model() if r == z3.sat else None), time.time() - t0
     goals = []
     for kw in _SIMP_VARIANTS:
         try:
             goals.append(z3.simplify(g, **kw) if kw else g)
         except z3.Z3Exception:
             pass
-    for budget in (min(2000, timeout_ms), timeout_ms):
+    for budget in (min(2000, timeout_ms), min(timeout_ms, int(os.environ.get('VERIF_SOLVER_MS', '15000')))):
         for goal in goals:
             s = z3.Solver()
             s.set("timeout", budget)
@@ -327,6 +336,28 @@ def solve(constraints, extra, timeout_ms=30000):
             if r != z3.unknown:
                 return str(r), (s.model() if r == z3.sat else None), time.time() - t0
     return "unknown", None, time.time() - t0
+
+
+class PathSolver:
+    """One incremental solver per path: the path condition is asserted once, each obligation is a
+    push/check/pop (process and assertion start-up dominate thousands of small queries otherwise)."""
+
+    def __init__(self, constraints, timeout_ms=15000):
+        self.constraints = list(constraints)
+        self.s = z3.Solver()
+        self.s.set("timeout", timeout_ms)
+        self.s.add(*self.constraints)
+
+    def check(self, neg):
+        t0 = time.time()
+        self.s.push()
+        self.s.add(neg)
+        r = self.s.check()
+        m = self.s.model() if r == z3.sat else None
+        self.s.pop()
+        if r == z3.unknown:
+            return solve(self.constraints, [neg])
+        return str(r), m, time.time() - t0
 
 
 def solve_any(constraints, A, viol, timeout_ms=30000):
